@@ -149,6 +149,13 @@ func runQS(c *Ctx, s *Sink) {
 						add = x
 					}
 				}
+			case *ast.CallExpr:
+				// min(q, 93)
+				if id, ok := x.Fun.(*ast.Ident); ok && id.Name == "min" && len(x.Args) == 2 && (isConstInt(info, x.Args[0], 93) || isConstInt(info, x.Args[1], 93)) {
+					if _, isBuiltin := info.Uses[id].(*types.Builtin); isBuiltin {
+						clamp = true
+					}
+				}
 			case *ast.IfStmt:
 				if b, ok := ast.Unparen(x.Cond).(*ast.BinaryExpr); ok && b.Op == token.GTR && isConstInt(info, b.Y, 93) {
 					for _, st := range x.Body.List {
